@@ -2454,8 +2454,12 @@ class MOFWBEMConnection(BaseRepositoryConnection):
                                 namespace=ns,
                                 LocalOnly=False,
                                 IncludeQualifiers=True)
-            inst.path = CIMInstanceName.from_instance(
-                cls, inst, namespace=ns)
+            try:
+                inst.path = CIMInstanceName.from_instance(
+                    cls, inst, namespace=ns)
+            except ValueError as exc:
+                raise CIMError(CIM_ERR_INVALID_PARAMETER, str(exc),
+                               conn_id=self.conn_id)
 
         if "Abstract" in cls.qualifiers:
             warnings.warn(
